@@ -32,7 +32,8 @@ Pinned == {"basepath_needs_host",        \* F-C17-4   servers only when there is
            "back_http_https_only",       \* F-C17-10
            "back_binary_is_parameter",   \* F-C17-11  every binary string schema is taken for a form file parameter
            "back_json_only",             \* F-C17-12
-           "back_body_name_search_first"} \* F-C17-15  a free name among body / requestBody is demanded even when x-originalParamName is there
+           "back_body_name_search_first", \* F-C17-15  a free name among body / requestBody is demanded even when x-originalParamName is there
+           "shared_form_key_hidden_by_definition"} \* F-C17-20 a shared form parameter is kept in components.schemas under its key, where the definition of that key replaces it
 
 (* switches of behaviours that have been repaired in the tree (not in Pinned any more): *)
 (*   "back_no_discriminator"     F-C17-1                                                 *)
@@ -152,8 +153,10 @@ ToV3Op(d, op, names) ==
        forms == {x \in ps : ParamKind(d, x) \in {"form", "formref"}}
        FName(x) == StrOf(Opt(IF Has(x, "$ref") THEN SharedOf(d, x) ELSE x, "name"), "?")
        FReq(x) == IsTrue(IF Has(x, "$ref") THEN SharedOf(d, x) ELSE x, "required")
-       FSchema(x) == IF Has(x, "$ref") THEN RefO("#/components/schemas/" \o SharedNameOf(d, x))
-                     ELSE LET f == ToV3Form(x, names) IN O([k \in DOMAIN f.m \ {"required"} |-> f.m[k]])
+       \* the repaired design converts a shared form parameter whose key is also a definition's at its place of use
+       inlined(x) == Has(x, "$ref") /\ "shared_form_key_hidden_by_definition" \notin Dev /\ SharedNameOf(d, x) \in Keys(Sub(d, "definitions"))
+       FSchema(x) == IF Has(x, "$ref") /\ ~inlined(x) THEN RefO("#/components/schemas/" \o SharedNameOf(d, x))
+                     ELSE LET f == ToV3Form(IF Has(x, "$ref") THEN SharedOf(d, x) ELSE x, names) IN O([k \in DOMAIN f.m \ {"required"} |-> f.m[k]])
        reqd == {FName(x) : x \in {y \in forms : FReq(y)}}
        formSchema == O(KV("type", S("object"))
                        @@ KV("properties", O([n \in {FName(x) : x \in forms} |-> FSchema(CHOOSE x \in forms : FName(x) = n)]))
@@ -203,7 +206,8 @@ ToV3Doc(d) ==
        bN == {n \in Keys(shared) : kindOf(n) = S("body")}
        fN == {n \in Keys(shared) : kindOf(n) = S("formData")}
        defs == Sub(d, "definitions")
-       schemas == [n \in Keys(defs) |-> ToV3Schema(defs.m[n], names)] @@ [n \in fN |-> ToV3Form(shared.m[n], names)]
+       \* one namespace for definitions and shared form parameters: the code writes the definitions last
+       schemas == [n \in Keys(defs) |-> ToV3Schema(defs.m[n], names)] @@ [n \in fN \ Keys(defs) |-> ToV3Form(shared.m[n], names)]
        comps == O(KV("schemas", O(schemas))
                   @@ If(Keys(shared) # {}, KV("parameters", O([n \in pN |-> ToV3Plain(shared.m[n], names)]))
                                            @@ KV("requestBodies", O([n \in bN |-> ToV3Body(shared.m[n], names, Opt(d, "consumes"))])))
